@@ -120,6 +120,15 @@ class SConst(Val):
 
 
 @dataclass
+class SSet(Val):
+    """a set of references: container reference; contents (Array Int Bool) live in the heap; len() is the uninterpreted CARD of the contents"""
+    id: Any
+
+
+CARD = z3.Function("CARD", z3.ArraySort(z3.IntSort(), z3.BoolSort()), z3.IntSort())
+
+
+@dataclass
 class SFunc(Val):
     """a function defined inside the function under contract (a closure): calls are executed in line"""
     node: Any
